@@ -186,3 +186,8 @@ Section PosPath.
     eapply (between_goodp _ []); [exact EF | constructor].
   Qed.
 End PosPath.
+
+Theorem entry_path_text path_eq cfg L R es :
+  positional cfg -> compare_to path_eq cfg L R = Ok es ->
+  Forall (fun e => e_path e = build_orig (e_loc e)) es.
+Proof. intros Hp E. exact (compare_to_paths path_eq cfg Hp L R es E). Qed.
